@@ -106,6 +106,7 @@ def main():
         len(res), sum(x[4]['states'] for x in good), sum(x[4]['quiescent'] for x in good),
         sum(1 for x in good if x[4]['truncated']), sum(x[4]['staleSkipped'] for x in good),
         sum(x[4]['uncleanSkipped'] for x in good), len(bad)))
+    print('cases in the single-activation class: %d' % sum(1 for x in good if x[4].get('singleAct')))
     for b in bad[:3]:
         print('  ERR', b[4])
     hits = {}
